@@ -335,6 +335,17 @@ class Scheduler(object):
             fn = code.co_filename
             rel = os.path.realpath(fn)[len(SPYNE_ROOT):]
             r = (rel, code.co_name) in self.region
+            if not r:
+                # lambdas, comprehensions and inner functions defined inside a
+                # region function belong to the region (a key function called
+                # by list.sort() is a pre-emption point INSIDE that one line)
+                qn = getattr(code, 'co_qualname', '') or ''
+                parts = qn.split('.')
+                if len(parts) > 1 and '<locals>' in parts:
+                    for fn_rel, fn_name in self.region:
+                        if fn_rel == rel and fn_name in parts[:-1]:
+                            r = True
+                            break
             self._region_cache[code] = r
             if r and self.opcodes:
                 # bytecode granularity inside the targeted region
